@@ -92,7 +92,12 @@ static void* root(void* x) {
   for (trial = 0; trial < trials; ++trial) {
     // alternate short and long yield loops: the bound must not depend on the loop length
     L = (trial & 1) ? (int)vp_param("long", 20000) : (int)vp_param("short", 500);
-    const int NY = 1 + (int)(vp_rand(&rng) % (unsigned)(maxn / 2));
+    int NY = 1 + (int)(vp_rand(&rng) % (unsigned)(maxn / 2));
+    // every third trial uses a large population (run-queue batches longer than any fixed cap, queues beyond their
+    // initial 256 slots)
+    if (trial % 3 == 1) NY = 60 + (int)(vp_rand(&rng) % 80);
+    if (trial % 3 == 2) NY = 250 + (int)(vp_rand(&rng) % 150);
+    if (NY > 200 && L > 2000) L = 2000;
     const int NV = 1 + (int)(vp_rand(&rng) % 4);
     const int NB = (int)(vp_rand(&rng) % 4);
     const int NC = (int)(vp_rand(&rng) % 3);
@@ -100,7 +105,7 @@ static void* root(void* x) {
     atomic_store(&stop_flag, 0);
     fiber_mutex_init(&mu);
     fb_slots_reset();
-    fb_slot_t* sl[256];
+    static fb_slot_t* sl[1024];
     int n = 0, i, nv0;
     vp_ghost_reset_bypass();
     // fairness bound: 2 x live fibers + 2 on one thread; stealing can add up to 50 entries per balance
